@@ -322,6 +322,28 @@ fn const_bytes<'tcx>(tcx: TyCtxt<'tcx>, owner: DefId, c: &MirConst<'tcx>) -> Opt
 	};
 	match val {
 		ConstValue::Slice { .. } => val.try_get_slice_bytes_for_diagnostics(tcx).map(|b| b.to_vec()),
+		ConstValue::Indirect { alloc_id, offset } => {
+			// wide pointer stored in memory: (ptr, len)
+			if let rustc_middle::mir::interpret::GlobalAlloc::Memory(a) = tcx.try_get_global_alloc(alloc_id)? {
+				let alloc = a.inner();
+				let off = offset.bytes() as usize;
+				if off + 16 > alloc.len() {
+					return None;
+				}
+				let raw = alloc.inspect_with_uninit_and_ptr_outside_interpreter(off..off + 16);
+				let len = u64::from_le_bytes(raw[8..16].try_into().ok()?) as usize;
+				let inner_off = u64::from_le_bytes(raw[0..8].try_into().ok()?) as usize;
+				let (_, p2) = alloc.provenance().ptrs().iter().find(|(o, _)| o.bytes() as usize == off)?;
+				if let rustc_middle::mir::interpret::GlobalAlloc::Memory(b) = tcx.try_get_global_alloc(p2.alloc_id())? {
+					let ib = b.inner();
+					if inner_off + len > ib.len() {
+						return None;
+					}
+					return Some(ib.inspect_with_uninit_and_ptr_outside_interpreter(inner_off..inner_off + len).to_vec());
+				}
+			}
+			None
+		},
 		ConstValue::Scalar(rustc_middle::mir::interpret::Scalar::Ptr(ptr, _)) => {
 			// &[u8; N]: pointer into a global allocation
 			let (prov, offset) = ptr.into_raw_parts();
@@ -885,7 +907,13 @@ fn dump_consts<'tcx>(tcx: TyCtxt<'tcx>, out: &mut String) {
 							}
 							out.push('"');
 						} else {
-							out.push_str(",\"ptrs\":true");
+							let mc = MirConst::Val(val, ty);
+							if let Some(b) = const_bytes(tcx, did, &mc) {
+								out.push_str(",\"s\":");
+								jbytes_as_str(out, &b);
+							} else {
+								out.push_str(",\"ptrs\":true");
+							}
 						}
 					}
 				}
@@ -896,7 +924,14 @@ fn dump_consts<'tcx>(tcx: TyCtxt<'tcx>, out: &mut String) {
 					jbytes_as_str(out, b);
 				}
 			},
-			_ => {},
+			_ => {
+				let _ = write!(out, ",\"cv\":\"{}\"", format!("{:?}", val).chars().take(60).collect::<String>().replace('"', "'"));
+				let mc = MirConst::Val(val, ty);
+				if let Some(b) = const_bytes(tcx, did, &mc) {
+					out.push_str(",\"s\":");
+					jbytes_as_str(out, &b);
+				}
+			},
 		}
 		out.push('}');
 	}
